@@ -15,18 +15,18 @@ func TestC02(t *testing.T) {
 		ID: "C02",
 		Cfg: core.SimConfig{
 			Prop:   "C02",
-			Owned:  core.Own(core.CatHandles, core.CatInvPool, core.CatInvIndex, core.CatPanicCreate, core.CatObserve),
+			Owned:  core.Own(core.CatHandles, core.CatInvPool, core.CatInvIndex, core.CatPanicCreate, core.CatObserve, core.CatScan),
 			Verify: core.VerifyOpts{Values: false, Relations: false, Scan: true, Hooks: true, Dead: true},
 		},
 		Mix: core.Mix{
 			core.OpNew: 10, core.OpNewWith: 3, core.OpBuildNew: 5, core.OpBuildBatch: 12,
-			core.OpRemoveEnt: 22, core.OpRemoveEnts: 5, core.OpReset: 1, core.OpDumpLoad: 2,
+			core.OpRemoveEnt: 22, core.OpRemoveEnts: 5, core.OpReset: 1, core.OpDumpLoad: 2, core.OpDumpSave: 2, core.OpDumpRestore: 2,
 			core.OpAdd: 3, core.OpRemove: 2, core.OpRelSet: 2, core.OpBatchAdd: 1,
 		},
 		Lim:      core.Limits{MaxAlive: 330, MaxTotal: 1200, MaxBatch: 7, MaxSlots: 2},
 		MaxPlain: 3, MaxRel: 1,
 		Setup: func(rt *rapid.T, sim *core.Sim, g *core.Gen) { g.BigBatch = true },
-		Rule:  "histories of single and batch creations (counts 1-7, 10% up to 300), single removals, RemoveEntities(filter), Reset and DumpEntities+Reset+LoadEntities; after EVERY op: Alive of every handle issued since the last reset equals the model, new handles are non-zero and were never issued before, no two alive handles share an id, zero entity dead, Stats.Used == creations-removals, Query(All()) yields exactly the alive set, entity-pool free-list invariant; non-trivial = some id was recycled at least twice (generation >= 2) and a batch creation received recycled and fresh ids together",
+		Rule:  "histories of single and batch creations (counts 1-7, 10% up to 300), single removals, RemoveEntities(filter), Reset, DumpEntities+Reset+LoadEntities, and DumpEntities ... further history ... Reset+LoadEntities of the earlier dump (the entity state must be the one of dump time); after EVERY op: Alive of every handle issued since the last reset equals the model, new handles are non-zero and were never issued before, no two alive handles share an id, zero entity dead, Stats.Used == creations-removals, Query(All()) yields exactly the alive set, entity-pool free-list invariant; non-trivial = some id was recycled at least twice (generation >= 2) and a batch creation received recycled and fresh ids together",
 		Observe: func(tr *tracker, op *core.Op) {
 			b := tr.sim.B
 			maxGen := uint32(0)
